@@ -106,8 +106,16 @@ func DumpAll(opts *Options) ([]*DumpResult, error) {
 	return results, nil
 }
 
+// rowSource picks, from a table's heap file, the rows a dump reports for that table
+type rowSource func(data []byte, cols []Column) []map[string]interface{}
+
 // DumpDataDir dumps all databases from a data directory
 func DumpDataDir(dataDir string, opts *Options) (*DumpResult, error) {
+	return dumpDataDirRows(dataDir, opts, readTableRows)
+}
+
+// dumpDataDirRows is DumpDataDir with the rows of every table chosen by rows
+func dumpDataDirRows(dataDir string, opts *Options, rows rowSource) (*DumpResult, error) {
 	opts = withDefaults(opts)
 
 	dbData, err := os.ReadFile(filepath.Join(dataDir, "global", "1262"))
@@ -136,7 +144,7 @@ func DumpDataDir(dataDir string, opts *Options) (*DumpResult, error) {
 			return os.ReadFile(filepath.Join(basePath, strconv.FormatUint(uint64(fn), 10)))
 		}
 
-		if dump, _ := DumpDatabaseFromFiles(classData, attrData, reader, opts); dump != nil {
+		if dump, _ := dumpDatabaseFromFilesRows(classData, attrData, reader, opts, rows); dump != nil {
 			dump.OID, dump.Name = db.OID, db.Name
 			result.Databases = append(result.Databases, *dump)
 		}
@@ -146,6 +154,11 @@ func DumpDataDir(dataDir string, opts *Options) (*DumpResult, error) {
 
 // DumpDatabaseFromFiles dumps using pre-read catalog files and custom reader
 func DumpDatabaseFromFiles(classData, attrData []byte, reader FileReader, opts *Options) (*DatabaseDump, error) {
+	return dumpDatabaseFromFilesRows(classData, attrData, reader, opts, readTableRows)
+}
+
+// dumpDatabaseFromFilesRows is DumpDatabaseFromFiles with the rows of every table chosen by rows
+func dumpDatabaseFromFilesRows(classData, attrData []byte, reader FileReader, opts *Options, rows rowSource) (*DatabaseDump, error) {
 	opts = withDefaults(opts)
 
 	tables := ParsePGClass(classData)
@@ -171,13 +184,13 @@ func DumpDatabaseFromFiles(classData, attrData []byte, reader FileReader, opts *
 			continue
 		}
 
-		table := dumpTable(filenode, info, attrs[info.OID], reader, opts)
+		table := dumpTable(filenode, info, attrs[info.OID], reader, opts, rows)
 		result.Tables = append(result.Tables, table)
 	}
 	return result, nil
 }
 
-func dumpTable(filenode uint32, info TableInfo, attrs []AttrInfo, reader FileReader, opts *Options) TableDump {
+func dumpTable(filenode uint32, info TableInfo, attrs []AttrInfo, reader FileReader, opts *Options, rows rowSource) TableDump {
 	t := TableDump{
 		OID:      info.OID,
 		Name:     info.Name,
@@ -207,7 +220,7 @@ func dumpTable(filenode uint32, info TableInfo, attrs []AttrInfo, reader FileRea
 		cols[i] = Column{Name: a.Name, TypID: a.TypID, Len: a.Len, Num: a.Num, Align: a.Align}
 	}
 
-	t.Rows = readTableRows(data, cols)
+	t.Rows = rows(data, cols)
 	t.RowCount = len(t.Rows)
 	return t
 }
